@@ -139,7 +139,7 @@ def main(argv=None):
     known_keys = {k['key']: k for k in known}
     printed_known = {}
     new = {}
-    rep_dir = env.HOME / 'replays'
+    rep_dir = Path(os.environ.get('VERIF_REPLAYS', env.HOME / 'replays'))
     for v in violations:
         key = v['key']
         if key in known_keys:
@@ -153,7 +153,7 @@ def main(argv=None):
     rc = 0
     replay_paths = []
     if new:
-        rep_dir.mkdir(exist_ok=True)
+        rep_dir.mkdir(parents=True, exist_ok=True)
         for n, (key, vs) in enumerate(sorted(new.items())):
             v = vs[0]
             path = rep_dir / f'{pid}-{args.seed}-{n}.json'
@@ -169,7 +169,9 @@ def main(argv=None):
         print(f'INCONCLUSIVE property={pid} {msg}')
 
     wall = time.time() - t0
-    if not args.replay and not args.limit:
+    # evidence describes the tree at /repo only: runs against a scratch copy (self-test of the checks) write none
+    foreign = env.REPO != Path('/repo').resolve() or os.environ.get('VERIF_NO_EVIDENCE')
+    if not args.replay and not args.limit and not foreign:
         level = LEVELS.get(pid, 'exploration')
         cov = {
             'evaluations': evaluations,
@@ -205,4 +207,13 @@ def main(argv=None):
 
 
 if __name__ == '__main__':
-    sys.exit(main())
+    try:
+        code = main()
+    except SystemExit:
+        raise
+    except BaseException as exc:      # a crash of the harness is never a verdict about the property
+        import traceback
+        traceback.print_exc()
+        print(f'INCONCLUSIVE harness crashed: {type(exc).__name__}: {exc}')
+        code = 2
+    sys.exit(code)
